@@ -67,7 +67,7 @@ def _ranges(h):
 def _validate(h):
     co, dv = h.module(CO), h.module(DV)
     Ra, ra = mk_ranges(h, co, "a", 2)
-    Rb, rb = mk_ranges(h, co, "b", 1)
+    Rb, rb = mk_ranges(h, co, "b", 2)          # an array-valued parameter with a UNION of allowed ranges (a gap between them)
     dev = object.__new__(dv.Device)
     dev._spec = {"gate_parameters": {"a": Ra, "b": Rb}}
     with h.stubbed(dv.Device, "gate_parameters", property(lambda self: {"a": Ra, "b": Rb})):
